@@ -192,7 +192,9 @@ def c06Ops : List (String × Handler) := [
     let s := r.toSky w
     pure (Json.mkObj [("start", ofPixR r), ("sky", ofSkyR s), ("back", ofPixR (s.toPixel w)),
                       ("contains_pix", ofBools (pts.map r.contains)),
-                      ("contains_sky", ofBools (pts.map fun p => s.contains w (w.toSky p)))])),
+                      ("contains_sky", ofBools (pts.map fun p => s.contains w (w.toSky p))),
+                      -- does the sky image answer an ARRAY of positions with one scalar?
+                      ("sky_scalar_for_array", Json.bool ((s.containsShape (some [pts.length])).isNone))])),
   -- sky region -> pixel -> sky; membership of sky positions: SkyRegion.contains vs the pixel image
   ("c06.sky", fun j => do
     let r ← getSkyR (← field j "region")
@@ -201,7 +203,8 @@ def c06Ops : List (String × Handler) := [
     let p := r.toPixel w
     pure (Json.mkObj [("start", ofSkyR r), ("pix", ofPixR p), ("back", ofSkyR (p.toSky w)),
                       ("contains_sky", ofBools (pts.map fun q => r.contains w q)),
-                      ("contains_pix", ofBools (pts.map fun q => p.contains (w.toPix q)))]))
+                      ("contains_pix", ofBools (pts.map fun q => p.contains (w.toPix q))),
+                      ("sky_scalar_for_array", Json.bool ((r.containsShape (some [pts.length])).isNone))]))
 ]
 
 end Driver
